@@ -90,6 +90,11 @@ class SgzCropper(SgzReader):
         if bytes_to_double(self.headerbytes[92:100]) != 0:
             # The float64 first-sample field takes precedence in the reader: it has to follow the crop too
             header[84:92] = double_to_bytes(first_sample)
+        elif first_sample != np.int32(first_sample):
+            # The int32 field holds whole milliseconds only: a crop starting between them is recorded in the
+            # float64 fields (first sample in ms, interval in microseconds)
+            header[84:92] = double_to_bytes(first_sample)
+            header[92:100] = double_to_bytes(1000.0 * (self.zslices[1] - self.zslices[0]))
         header[20:24] = np_float_to_bytes_signed(np.int32(self.xlines[xline_index_range[0]]))
         header[24:28] = np_float_to_bytes_signed(np.int32(self.ilines[iline_index_range[0]]))
         header[56:60] = int_to_bytes(compressed_data_length_diskblocks)
